@@ -87,3 +87,10 @@ def attr_inserts_for(modules):
     for m in modules:
         out += ATTR_INSERTS.get(m, [])
     return out
+
+NOT_APPLICABLE = {
+    'C13': 'process-level observable (exit status, stdout/stderr discipline, tty) decided in main()/Cli::parse_args via env::args_os and process::exit; '
+           'Verus accepts none of it and Kani has no model of process exit, the environment or a terminal; no contract within reach carries the property',
+    'C15': 'the guarantee is the content of a BufWriter<StdoutLock> at process::exit in main() (flush after each input, destructors skipped); '
+           'no function under contract carries it (Translator::flush forwarding is checked under C12)',
+}
